@@ -6,13 +6,14 @@
 //!   members  ( entry )                           -> ( (name start len crc) ... )                helper: the real reader's view
 //!   pack     ( objs so se )                      -> ( render ( r ... ) so se )
 //!   read     ( entry reqs frames specs )         -> ( verdict ... )   one per expanded corruption
-//!   extract  ( objs so se spec )                 -> ( write_err ) | ( miss ) | ( panic ) | ( hit so se ( f ... ) )
+//!   extract  ( objs so se spec )                 -> ( write_err ) | ( miss ) | ( fatal ) | ( panic ) | ( hit so se ( f ... ) )
 //! objs  = ( (name mode content frame [optional present]) ... )     mode = none | number; frame is for the model only
 //! so/se = ( content frame )
 //! content = #bytes | ( zeros n ) | ( rand seed n ) | ( text seed n ) | ( rep #bytes n )
-//! read verdict = 0 (refused) | ( so se r ... ); so/se = 0 | 2 | ( tok ); r = 0 error | 1 absent | 2 panic | ( mode tok )
+//! read verdict = 0 (refused) | ( so se r ... ); so/se = 0 | 2 | 3 | ( tok ); r = 0 error | 1 absent | 2 panic | 3 | ( mode tok )
+//!   0/1 = the error IS a DecompressionFailure (the class get_cached_or_compile turns into a miss), 3 = any other error type
 //! spec  = ( none ) | ( trunc i ) | ( sub j v ) | ( subrange j0 j1 ) | ( truncall )
-use sccache::verif_hooks::cache::{CacheRead, CacheWrite, FileObjectSource};
+use sccache::verif_hooks::cache::{CacheRead, CacheWrite, DecompressionFailure, FileObjectSource};
 use std::io::Cursor;
 use std::os::unix::fs::PermissionsExt;
 use vh::{catch, Sx};
@@ -100,18 +101,29 @@ fn name_of(x: &Sx) -> String {
     String::from_utf8(x.bytes().to_vec()).unwrap_or_else(|_| "<bad-utf8>".to_string())
 }
 
-// works for both shapes of get_stdout/get_stderr (Vec<u8> before the fix, Result<Vec<u8>> after it)
+// works for both shapes of get_stdout/get_stderr (Vec<u8> before the fix, anyhow::Result<Vec<u8>> after it)
 trait IntoRes {
-    fn into_res(self) -> Result<Vec<u8>, ()>;
+    fn into_res(self) -> Result<Vec<u8>, anyhow::Error>;
 }
 impl IntoRes for Vec<u8> {
-    fn into_res(self) -> Result<Vec<u8>, ()> {
+    fn into_res(self) -> Result<Vec<u8>, anyhow::Error> {
         Ok(self)
     }
 }
-impl<E> IntoRes for Result<Vec<u8>, E> {
-    fn into_res(self) -> Result<Vec<u8>, ()> {
-        self.map_err(|_| ())
+impl IntoRes for Result<Vec<u8>, anyhow::Error> {
+    fn into_res(self) -> Result<Vec<u8>, anyhow::Error> {
+        self
+    }
+}
+
+/// The CLASS of a reader error.  `get_cached_or_compile` treats an error of extract_objects as a miss only if it
+/// downcasts to `DecompressionFailure`; anything else fails the request.  0 = DecompressionFailure and the
+/// directory has the member, 1 = DecompressionFailure and it has not, 3 = any other error type.
+fn err_code(e: &anyhow::Error, has: bool) -> Sx {
+    if e.downcast_ref::<DecompressionFailure>().is_some() {
+        Sx::N(if has { 0 } else { 1 })
+    } else {
+        Sx::N(3)
     }
 }
 
@@ -185,13 +197,13 @@ fn read_verdict(bytes: Vec<u8>, reqs: &[String], origs: &[Vec<u8>]) -> Sx {
     let so = catch(|| rd.get_stdout().into_res());
     out.push(match so {
         Ok(Ok(b)) => Sx::L(vec![tok(&b, origs)]),
-        Ok(Err(())) => Sx::N(0),
+        Ok(Err(e)) => err_code(&e, true),
         Err(_) => Sx::N(2),
     });
     let se = catch(|| rd.get_stderr().into_res());
     out.push(match se {
         Ok(Ok(b)) => Sx::L(vec![tok(&b, origs)]),
-        Ok(Err(())) => Sx::N(0),
+        Ok(Err(e)) => err_code(&e, true),
         Err(_) => Sx::N(2),
     });
     for name in reqs {
@@ -199,8 +211,9 @@ fn read_verdict(bytes: Vec<u8>, reqs: &[String], origs: &[Vec<u8>]) -> Sx {
         let g = catch(|| rd.get_object(name, &mut buf));
         out.push(match g {
             Ok(Ok(mode)) => Sx::L(vec![mode_sx(mode), tok(&buf, origs)]),
-            // 1 = the directory has no such member, 0 = it has one but it cannot be read back
-            Ok(Err(_)) => Sx::N(if rd.verif_has(name) { 0 } else { 1 }),
+            // 1 = the directory has no such member, 0 = it has one but it cannot be read back; both only if the
+            // error is of the miss class DecompressionFailure, 3 otherwise
+            Ok(Err(e)) => err_code(&e, rd.verif_has(name)),
             Err(_) => Sx::N(2),
         });
     }
@@ -380,25 +393,34 @@ fn main() {
             expand_specs(&[case.arg(3).clone()], &entry, |b| corrupted.push(b));
             let bytes = corrupted.into_iter().next().unwrap_or(entry);
             // the Cache::Hit arm of get_cached_or_compile
+            // The Cache::Hit arm of get_cached_or_compile, decision for decision: a storage-level failure to open the
+            // entry and any error of get_stdout/get_stderr are a miss; an error of extract_objects is a miss ONLY if
+            // it downcasts to DecompressionFailure, otherwise the request fails ("fatal").
             let res = catch(|| {
                 let mut rd = match CacheRead::from(Cursor::new(bytes)) {
                     Ok(rd) => rd,
-                    Err(_) => return None,
+                    Err(_) => return Err("miss"),
                 };
                 let so = rd.get_stdout().into_res();
                 let se = rd.get_stderr().into_res();
                 match (so, se) {
                     (Ok(so), Ok(se)) => match rt.block_on(rd.extract_objects(dests.clone(), &handle)) {
-                        Ok(()) => Some((so, se)),
-                        Err(_) => None,
+                        Ok(()) => Ok((so, se)),
+                        Err(e) => {
+                            if e.downcast_ref::<DecompressionFailure>().is_some() {
+                                Err("miss")
+                            } else {
+                                Err("fatal")
+                            }
+                        }
                     },
-                    _ => None,
+                    _ => Err("miss"),
                 }
             });
             match res {
                 Err(_) => Sx::L(vec![Sx::sym("panic")]),
-                Ok(None) => Sx::L(vec![Sx::sym("miss")]),
-                Ok(Some((so2, se2))) => {
+                Ok(Err(kind)) => Sx::L(vec![Sx::sym(kind)]),
+                Ok(Ok((so2, se2))) => {
                     let mut fs = vec![];
                     for d in &dests {
                         match std::fs::read(&d.path) {
